@@ -9,7 +9,7 @@ applies to a node; a change that hoists state from the group to the node, evalua
 directly, or adds a shared mutable field makes `every_newgroup_owns_its_state` false (the extractor emits
 `evaluated` / `unknown` / a new `mutated` entry; nothing is defaulted).
 Not visible to this scan (purely syntactic, root package only): state inside objects the node only reads
-(`EvalLambdaNode.state` of a nested lambda — it was shared by all groups until `fix:` dcda92d made `CopyReset` copy
+(`EvalLambdaNode.state` of a nested lambda — it was shared by all groups until `fix:` 8ed14ac made `CopyReset` copy
 the lambda nodes, former finding nested-lambda-state-shared; the nodeEvaluator's type specialisation — C04), and state reached through method calls on node-level objects (timers, statistics, the alert
 service). Those are covered by the relational runs.
 -/
@@ -22,7 +22,7 @@ def allowedMutable : List (String × String) := [
   ("InfluxQLNode", "currentKind"),     -- cache, transparent: Kap.Props.C06.cache_keyed_by_kind / iql_isolated
   ("InfluxQLNode", "createFn"),
   ("BarrierNode", "barrierStopper"),   -- map[GroupID]func(): one entry per group, written by that group's NewGroup/DeleteGroup
-  ("BarrierNode", "periodicEmitters"), -- sync.WaitGroup (fix 4d7f3d1): counts the emitter goroutines, waited for only when the node exits; carries no data
+  ("BarrierNode", "periodicEmitters"), -- sync.WaitGroup (fix 93b2e57): counts the emitter goroutines, waited for only when the node exits; carries no data
   ("HTTPOutNode", "indexes"),          -- map[GroupID]int: one entry per group
   ("AutoscaleNode", "resourceStates")  -- keyed by the external resource id the node scales: shared by design
 ]
